@@ -331,7 +331,7 @@ mod sched_part {
         };
         Scenario {
             name: name.to_string(),
-            opts: Opts { stale_reads: false, stale_depth: 2, max_spurious: 0, horizon: 20_000, log_ops: false, log_handler_ops: false, reduce: true, no_discipline: false, nest_value_t1: 0, post_points: false, no_race_check: false, start_points: false },
+            opts: Opts { stale_reads: false, stale_depth: 2, max_spurious: 0, horizon: 20_000, log_ops: false, log_handler_ops: false, reduce: true, no_discipline: false, nest_value_t1: 0, post_points: false, no_race_check: false, start_points: false, endurance: 0 },
             signals: vec![S1, S2],
             setup: Box::new(setup),
             threads: vec![m, d],
